@@ -27,7 +27,33 @@ CONFIG = {
 WEIGHTS = {"p_create": 0.55, "p_edit": 0.2, "p_ro": 0.05, "nested": 0.5, "sf": 0.25}
 
 
+def generate_long(rng):
+    """a long history (11..14 generations in one folder) on a tiny tree"""
+    from .. import gen
+
+    env = gen.gen_env(rng)
+    tree = {"a.bin": {"t": "f", "c": gen.unique_content(rng)}, "S": {"t": "d"}, "S/b.bin": {"t": "f", "c": gen.unique_content(rng)}}
+    env["tree"] = tree
+    ops = []
+    if rng.random() < 0.5:
+        ops.append(scen.cmd("create", "@R/S", "-h", "md5"))
+    fm = gen.fmt_args(gen.pick_formats(rng, 1, 1))
+    for g in range(rng.randint(11, 14)):
+        r = rng.random()
+        if r < 0.2:
+            ops.append(scen.cmd("create", "@R", *fm, "-sf", "@R/a.bin"))
+        elif r < 0.3:
+            ops.append({"op": "write", "path": "n%d.bin" % g, "c": gen.unique_content(rng), "fault": "add_file"})
+            ops.append(scen.cmd("create", "@R", *fm))
+        else:
+            ops.append(scen.cmd("create", "@R", *fm))
+        ops.append({"op": "advance", "us": rng.choice([0, 0, 1_000_000, 61_000_000])})
+    return {"world": env, "ops": ops}
+
+
 def generate(rng, tier):
+    if rng.random() < 0.06:
+        return generate_long(rng)
     sc = explore.generate(rng, tier, WEIGHTS, hostile=0.1)
     # sprinkle clock faults
     ops = []
@@ -154,7 +180,9 @@ def monitor(ctx, st):
         ctx.probe("two_generations_same_second")
     if n_new > 1:
         ctx.probe("parent_and_child_generation_in_one_run")
-    ctx.state("create", code, n_new, max_gen, same_second, "-sf" in op["argv"])
+    ctx.state("create", code, n_new, min(max_gen, 12), same_second, "-sf" in op["argv"])
+    if max_gen >= 10:
+        ctx.probe("generation_number_ge_10")
 
 
 GEN_LINE = re.compile(r"^\s+Generation (\d+) \(")
